@@ -240,6 +240,10 @@ def op_getter(c):
     allr, r6 = guard(lambda: list(GetFromAll().get(s, sid_encode=str)))
     o['raised'] = o['raised'] or r6
     o['all_sids'] = [enc(d.get('sid', '')) for d in (allr or [])]
+    # GetFromAll with the same attributes and encoder as GetFromPaths above
+    allr2, r7 = guard(lambda: list(GetFromAll().get(s, attributes=attrs, sid_encode=encf)))
+    o['raised'] = o['raised'] or r7
+    o['all_recs'] = [_rec(d) for d in (allr2 or [])]
     return o
 
 
@@ -255,4 +259,22 @@ def op_sidreads(c):
     o['children'] = dict(raised=r, res=[_segs(x) for x in (ch or [])])
     sb, r = guard(lambda: list(sid.siblings()))
     o['siblings'] = dict(raised=r, res=[_segs(x) for x in (sb or [])])
+    return o
+
+
+def op_algebrafs(c):
+    """C10 on the real finders: the search and its derived searches through FindInPaths (both configurations) and FindInAll"""
+    ensure(c['univ'], False)
+    pc = pathconf()
+    L = entity_list(pc['default'])
+    o = dict(runs=[])
+    for name, f in _finders(L):
+        def run(search):
+            s = render_search(search)
+            r, err = guard(lambda: list(f.find(s, as_sid=False)))
+            return dict(err=err, res=[_segs(x) for x in (r or [])])
+        d = run(c['search'])
+        d['parts'] = [run(p) for p in c['parts']]
+        d['name'] = name
+        o['runs'].append(d)
     return o
